@@ -301,6 +301,14 @@ pub fn run() {
 			}
 		}
 	}
+	for a in crate::gen::universe(cx.quick()) {
+		let doc = Arc::new(record(&a).doc);
+		let label = a.describe();
+		let nb = doc.events.len();
+		for (k, at) in [(0usize, 1usize), (2, (nb + 1) / 2), (3, nb)] {
+			jobs.push((doc.clone(), label.clone(), vec![(k, at.max(1))]));
+		}
+	}
 	cx.note("insertion_cases", json!(jobs.len()));
 	par_each(jobs.into_iter(), |(doc, label, ins), local| {
 		let bytes = Arc::new(with_unknown(&doc, &ins));
